@@ -245,9 +245,11 @@ stamp!(c15_ustruct_from_array_k1, 13, ustruct_from_array::<1>());
 stamp!(c15_ustruct_from_array_k4, 13, ustruct_from_array::<4>());
 stamp!(c15_ustruct_from_array_k5, 13, ustruct_from_array::<5>());
 
-fn ustruct_probe<const K: usize>(len: usize, off: usize) {
-    const N: usize = 11;
-    let b = sym_slice(len, 2, off, N);
+
+#[repr(C, align(8))]
+struct Backing<const T: usize>([u8; T]);
+
+fn ustruct_probe2<const K: usize>(b: &mut [u8], len: usize, off: usize) {
     let (a, bb): (u8, u16) = (kani::any(), kani::any());
     let e: [u8; K] = any_bytes();
     let r = UStruct::new_in_place(b, UStructInit { a, b: bb, c: flatty::vec::FromArray(e) });
@@ -268,21 +270,19 @@ fn ustruct_probe<const K: usize>(len: usize, off: usize) {
         assert!(UStruct::validate(b).is_ok());
     }
 }
-
-/// Exhaustive case split over (len, off): the body runs with a CONCRETE length (so the exact-size allocation has a
-/// constant size, which keeps CBMC's memory model cheap) while (len, off) themselves stay symbolic: every length
-/// 0..=n and every misalignment 0..align is covered by exactly one case.
-fn each_len_off(n: usize, align: usize, f: impl Fn(usize, usize)) {
-    let (len, off) = any_len_off(n, align);
-    let mut hit = false;
-    let mut l = 0;
-    while l <= n {
-        if l == len {
-            if off == 0 { f(l, 0) } else { f(l, off) }
-            hit = true;
-        }
-        l += 1;
-    }
-    assert!(hit);
-}
-stamp!(c15_probe_split, 13, each_len_off(11, 2, |len, off| ustruct_probe::<4>(len, off)));
+stamp!(c15_probe_concrete, 13, { let b = sym_slice(10, 2, 0, 11); ustruct_probe2::<4>(b, 10, 0) });
+stamp!(c15_probe_prefix, 13, {
+    let mut back = Backing::<16>(kani::any());
+    let len: usize = kani::any();
+    kani::assume(len <= 11);
+    let b = &mut back.0[..len];
+    ustruct_probe2::<4>(b, len, 0)
+});
+stamp!(c15_probe_prefix_off, 13, {
+    let mut back = Backing::<16>(kani::any());
+    let len: usize = kani::any();
+    let off: usize = kani::any();
+    kani::assume(len <= 11 && off < 2);
+    let b = &mut back.0[off..off + len];
+    ustruct_probe2::<4>(b, len, off)
+});
